@@ -5,7 +5,7 @@
 From Coq Require Import NArith ZArith List.
 From V Require Import lib.Words gen.GenHuffman spec.PrefixCode model.Huffman
   proofs.ReverseBits_proofs proofs.Canonical_proofs proofs.Huffman_proofs proofs.Rle_proofs
-  proofs.Store_proofs proofs.Tree_proofs.
+  proofs.Store_proofs proofs.Tree_proofs proofs.Complex_proofs.
 Import ListNotations.
 Open Scope N_scope.
 
@@ -135,6 +135,25 @@ Theorem C17_store_simple4 : forall asz kf a b c d out r,
 Proof. exact simple4. Qed.
 Print Assumptions C17_store_simple4.
 
+(* ---- serialisation: BrotliStoreHuffmanTree (RFC 7932 3.5, complex prefix code) ---------------
+   Proved ("returns => correct"): for every complete code (lengths <= 15, Kraft sum exactly 1) over
+   at most 704 symbols, read in any alphabet at least as large: if BrotliStoreHuffmanTree returns,
+   and the retry loop of its own 18-symbol code length code ran at most 27 times (rr is that number;
+   termination of that loop is the unproved part -- the check records the maximum it ever
+   observes), then the RFC reader applied to the emitted bits followed by anything returns exactly
+   the length vector (zero-padded to the alphabet) and leaves the rest.  This composes C17_rle,
+   C17_tree_partial / C17_tree_one at limit 5, C17_canonical for the code length code, the fixed
+   storage order with its variable-length code and the 32 / 32768 space accounting. *)
+Theorem C17_store_complex_partial : forall depths asz pool out out' pool' rr r,
+  wf_depths depths -> kraft depths = kraft_one ->
+  N.of_nat (length depths) <= 704 -> N.of_nat (length depths) <= asz ->
+  store_huffman_tree depths (N.of_nat (length depths)) pool out = Done (out', pool', rr) -> rr <= 27 ->
+  exists bs, out' = out ++ bs /\
+    rfc_read_prefix_code asz (bs ++ r) =
+    Some ({| pc_lengths := depths ++ zeros (asz - N.of_nat (length depths)); pc_single := None |}, r).
+Proof. exact store_complex. Qed.
+Print Assumptions C17_store_complex_partial.
+
 (* Non-vacuity: a skewed 8-symbol code with a run that uses both repeat codes. *)
 Example C17_points :
   wf_depths [1; 2; 3; 4; 5; 6; 7; 7] /\ kraft [1; 2; 3; 4; 5; 6; 7; 7] = kraft_one /\
@@ -148,6 +167,12 @@ Qed.
 
 (* Non-vacuity of C17_tree_partial: the 18-symbol Fibonacci histogram at limit 5 returns after 8
    doublings of count_limit, inside the guard. *)
+(* Non-vacuity of C17_store_complex_partial: a 9-symbol complete code is stored without a retry. *)
+Example C17_store_point :
+  exists out' pool', store_huffman_tree [1; 2; 3; 4; 5; 6; 7; 8; 8] 9 (repeat node0 37) [] = Done (out', pool', 0) /\
+  kraft [1; 2; 3; 4; 5; 6; 7; 8; 8] = kraft_one.
+Proof. vm_compute. eexists. eexists. split; reflexivity. Qed.
+
 Example C17_tree_point :
   let counts := [1; 1; 2; 3; 5; 8; 13; 21; 34; 55; 89; 144; 233; 377; 610; 987; 1597; 2584] in
   (exists pool', create_huffman_tree counts 18 5 (repeat node0 37) (repeat 0 18)
